@@ -25,6 +25,9 @@ CHECKS["C15"] = dict(engine="scheduler", technique="stateless exploration of all
 CHECKS["C16"] = dict(engine="scheduler", technique="stateless exploration of all interleavings of caller / gate releaser / canceller / library execution goroutine up to a preemption bound, race detector active in every schedule",
    text="Scenarios: 1-2 (3 thorough) gated resolvers that ignore or observe the context, 0..n gates opened, cancellation (Canceled / DeadlineExceeded) or none, entry Do or PlanQuery+ExecutePlan; every schedule with <= 2 / 3 preemptions: the call returns whenever it was cancelled or all gates opened, and the result is either the context error alone (no data) or a complete well-formed response; never partial data.",
    ref="5 C16", note="Logical synchronisation only (gates are channels owned by the scheduler); no wall-clock oracle.")
+CHECKS["C04"] = dict(engine="explorer", technique="bounded exhaustive fault placement (stateless DFS over resolver/type-resolver outcome choices) over an enumerated family of nullability lattices, judged by an intrinsic schema-conformance oracle",
+   text="All 7^3 wrapper combinations over a 3-level path x object/interface/union x 5 leaf types (5145 schemas) with every placement of 1 (quick) / 2 (thorough) faults, and a reduced family (3^3 x 3 x 2) with every placement of 2 / 3 faults, drawn from 20 adversarial outcomes (nil, typed nil, NaN, wrong-kind values, 2^31, unknown enum value, \"NaN\"/\"+Inf\" strings, error, value+error, panics with error/string/int, thunks that succeed / fail / return nil / panic, wrong-signature func) and wrong ResolveType answers: data has exactly the selected keys, every leaf is a legal serialisation or null, lists are lists, no null in a non-null position, nulls sit exactly at the nearest nullable ancestor of a fault, every explicit failure is null in data and has an error with its path, every error is explained by a fault, nothing outside faulted subtrees differs from the fault-free run, no resolver runs twice, the result marshals to JSON.",
+   ref="5 C04", note="Intrinsic oracle only (no reference interpreter). Known finding C04-F2 (failure escaping through a thunk in a non-null position) is attributed only when data is null and such a thunk fault is present.")
 NOT_YET = {}
 ALL = ["C%02d" % i for i in range(1, 21)]
 
